@@ -344,6 +344,25 @@ def _sector_norm(H, model, qntot, kind):
         return float(np.linalg.norm(H, 2)) if H.size else 0.0
 
 
+def _cfg_fingerprint(obj):
+    """The settings a caller put on an object (evolution scheme and its switches, bond limit): part of the object's state."""
+    ec, cc = obj.evolve_config, obj.compress_config
+    g = ec.guess_dt
+    return {"method": str(ec.method), "adaptive": bool(ec.adaptive), "guess_dt": [float(np.real(g)), float(np.imag(g))] if g is not None else None,
+            "adaptive_rtol": ec.adaptive_rtol, "rk": ec.rk_config.method, "taylor": tuple(np.asarray(ec.taylor_config.coeff).tolist()) if hasattr(ec, "taylor_config") else None,
+            "reg_epsilon": ec.reg_epsilon, "ivp_rtol": ec.ivp_rtol, "ivp_atol": ec.ivp_atol, "ivp_solver": ec.ivp_solver, "force_ovlp": ec.force_ovlp,
+            "cmf_midpoint": ec.tdvp_cmf_midpoint, "cmf_trapz": ec.tdvp_cmf_c_trapz, "vmf_auto_switch": ec.vmf_auto_switch,
+            "criteria": str(cc.criteria), "max_bonddim": getattr(cc, "bond_dim_max_value", None), "threshold": cc.threshold}
+
+
+def do_evolve_cfg_only(src_obj, cfgspec, dt, bond_m):
+    if not cfgspec.get("adaptive") and "guess_dt" not in cfgspec and not np.iscomplex(dt) and dt < 0:
+        cfgspec = dict(cfgspec, guess_dt=[-0.1, 0.0])
+    src_obj.evolve_config = make_config(cfgspec)
+    if bond_m is not None:
+        src_obj.compress_config = CompressConfig(CompressCriteria.fixed, max_bonddim=int(bond_m))
+
+
 def do_evolve(w, src_obj, hobj_or_cb, cfgspec, dt, bond_m, normalize=True, keep_config=False):
     if not keep_config:
         if not cfgspec.get("adaptive") and "guess_dt" not in cfgspec and not np.iscomplex(dt) and dt < 0:
@@ -442,8 +461,13 @@ def op_evolve(w, s):
     # VMF / CMF re-gauge the input (ensure_left_canonical): that is a documented gauge change, not a value change
     w.cur_op = f"evolve:{method}"
     _ivp_budget[0] = 4000
+    cfg_before = None
     try:
-        res = do_evolve(w, src, tdh if tdh is not None else eh.obj, c, dt, bond_m, normalize=s.get("normalize", True), keep_config=carried)
+        # (do_evolve installs the configuration first; the snapshot is what the caller set on the object)
+        if not carried:
+            do_evolve_cfg_only(src, c, dt, bond_m)
+        cfg_before = _cfg_fingerprint(src)
+        res = do_evolve(w, src, tdh if tdh is not None else eh.obj, c, dt, bond_m, normalize=s.get("normalize", True), keep_config=True)
     except StepBudgetExceeded:
         w.stats.probes["ivp_budget_exceeded:" + method] += 1
         w.changed.add(a)  # gauge of the input may have been touched (ensure_left_canonical); value is re-checked below
@@ -506,6 +530,13 @@ def op_evolve(w, s):
         expected = full
     got = dense.dense_of(res)
     meta = {"evolved": True, "method": method}
+    if cfg_before is not None and res is not src:
+        cfg_after = _cfg_fingerprint(src)
+        # guess_dt is a step-size hint that adaptive propagation updates on purpose (the configuration object travels with the states)
+        diff = sorted(k for k in cfg_before if cfg_before[k] != cfg_after[k] and k != "guess_dt")
+        if diff:
+            raise V({"C13", pid_main}, "C13.input_config_changed", f"evolve {method} changed the settings of its INPUT object: " + ", ".join(f"{k}: {cfg_before[k]} -> {cfg_after[k]}" for k in diff),
+                    sig=f"C13.input_config_changed:{method}:{','.join(diff)}")
     w.put(s["out"], e.kind, res, got, e.mid, meta)
     en = max(float(np.linalg.norm(expected.ravel())), 1e-300)
     err = float(np.linalg.norm((got - expected).ravel())) / en
@@ -678,6 +709,14 @@ def _pairwise(w, s, pair, e, eh, c, dt, bond_m, got, x, hn, imag, pid_main, td, 
         if d > tol and X_LO <= x <= X_HI and not CALIBRATE:
             raise V({pid_main}, "evolve.pair.adaptive", f"{method}: adaptive vs fixed stepping differ by {d:.3e} > {tol:.3e} (x={x:.3g})", sig=f"evolve.pair.adaptive:{method}")
         w.stats.probes["pair_adaptive"] += 1
+    elif kind == "repeat" and not c.get("adaptive"):
+        # history independence: the same call on the same (already used) input object gives the same state
+        other = dense.dense_of(src.evolve(eh.obj, dt, normalize=s.get("normalize", True)))
+        d = float(np.linalg.norm((other - got).ravel())) / gn
+        w.stats.ratio(f"evolve.pair.repeat:{method}", d, 1e-6)
+        if d > 1e-6:
+            raise V({pid_main, "C13"}, "evolve.pair.repeat", f"{method}: evolving the same input object a second time gives a different state (rel. diff {d:.3e}, x={x:.3g})", sig=f"evolve.pair.repeat:{method}")
+        w.stats.probes["pair_repeat"] += 1
     elif kind == "split" and not c.get("adaptive"):
         half = do_evolve(w, src, eh.obj, c, dt / 2, bond_m, normalize=s.get("normalize", True))
         two = dense.dense_of(do_evolve(w, half, eh.obj, c, dt / 2, bond_m, normalize=s.get("normalize", True)))
@@ -817,9 +856,52 @@ def _gen_evolve(w, rnd, imag):
                    "amp": round(rnd.uniform(0.2, 1.0) * hn, 4), "omega": round(rnd.uniform(0.5, 3.0) / max(tau, 1e-9), 4), "phase": round(rnd.uniform(0, 6.28), 3)}
     r = rnd.random()
     if r < 0.5:
-        kind = rnd.choice(["solver", "adaptive", "split", "order", "order"])
+        kind = rnd.choice(["solver", "adaptive", "split", "order", "order", "repeat"])
         s["pair"] = {"kind": kind, "other": rnd.choice(["krylov", "RK45", "RK23"]), "guess": round(tau * rnd.choice([0.3, 1.0, 3.0]), 6)}
     return s
+
+
+def _is_left_canonical(obj):
+    try:
+        return bool(obj.check_left_canonical())
+    except Exception:
+        return True
+
+
+@prop("evolve_ovlp")
+def p_evolve_ovlp(w, rnd):
+    """Scenario bias: the variational-mean-field schemes keep a state that is NOT canonical (force_ovlp with a left-pointing sweep
+    direction) and work with explicit overlap matrices.  The scheduler steers a complex, full-rank state into that situation
+    (direction flipped, bond gauge changed by another holder) and then evolves it."""
+    hams = w.handles("mpo", pred=lambda e: e.meta.get("hermitian"))
+    rnd.shuffle(hams)
+    for hh in hams:
+        mid = w.h[hh].mid
+        st = w.handles("mps", mid, pred=lambda e: nonzero(e) and len(e.obj) >= 2 and e.obj.qn is not None and full_rank_in_sector(e.obj, "mps")
+                       and max(e.obj.bond_dims) > 1)
+        if not st:
+            continue
+        ready = [x for x in st if w.h[x].obj.is_complex and not w.h[x].obj.to_right and not _is_left_canonical(w.h[x].obj)]
+        if ready:
+            a = rnd.choice(ready)
+            e, eh = w.h[a], w.h[hh]
+            hn = _sector_norm(eh.shadow, e.obj.model, np.asarray(e.obj.qntot).reshape(-1), e.kind)
+            if hn < 1e-3:
+                continue
+            x = 10 ** rnd.uniform(math.log10(X_LO), math.log10(X_HI))
+            imag = rnd.random() < 0.3
+            tau = round(x / hn, 6)
+            c = {"method": rnd.choice(["vmf", "mu_vmf"]), "force_ovlp": True, "vmf_auto_switch": rnd.random() < 0.5}
+            return {"op": "evolve", "a": a, "h": hh, "cfg": c, "dt": [0.0, -tau] if imag else [tau * rnd.choice([1, -1]), 0.0],
+                    "m": max(exact_bond_cap(w.pd(e.mid, e.kind))), "normalize": rnd.random() < 0.7, "out": w.new_handle()}
+        a = rnd.choice(st)
+        obj = w.h[a].obj
+        if not obj.is_complex:
+            return {"op": "unary", "a": a, "which": "to_complex", "out": w.new_handle()}
+        if obj.to_right:
+            return {"op": "ensure", "a": a, "side": "R"}
+        return {"op": "regauge", "a": a, "bond": rnd.randrange(8), "gseed": rnd.randrange(2 ** 31)}
+    return None
 
 
 @prop("evolve")
